@@ -41,7 +41,7 @@ func runMain(f lib.Flags) error {
 	defer os.RemoveAll(work)
 
 	cf := lib.NewCaseFile("C29", f.Seed, f.Tier)
-	cf.Imports = []string{"Concurrency"}
+	cf.Imports = []string{"Base", "Concurrency"}
 	cf.CaseType = "c29_case"
 	cf.Checks = []lib.Check{{Name: "tie", Kind: "tie", Fn: "c29_tie"}, {Name: "spec", Kind: "spec", Fn: "c29_spec"}}
 	cf.Side.Rule = "conformance: generated JSON files (0..~11000 lines: batch-size edges, malformed lines, an over-long line, produce failing at call k (LIMIT), " +
@@ -51,7 +51,7 @@ func runMain(f lib.Flags) error {
 		"search: the CLI built with -race runs generated queries (parallel JSON, JSON joins, LIKE/~/~* in both branches, stdin, LIMIT, injected parse error) under a timeout"
 
 	// ---- (1) conformance ----
-	perChild := f.Cases(36, 300)
+	perChild := f.Cases(30, 300)
 	bigPer := 1
 	if f.Tier == "thorough" {
 		bigPer = 6
@@ -326,7 +326,7 @@ func raceSearch(repo, work string, f lib.Flags) ([]searchCase, string) {
 	return cases, note
 }
 
-const queryTimeout = 90 * time.Second
+const queryTimeout = 60 * time.Second
 
 func runQuery(bin, dir, home string, c *searchCase) {
 	ctx, cancel := context.WithTimeout(context.Background(), queryTimeout)
